@@ -19,7 +19,7 @@ LEVEL = "exploration"
 TECHNIQUE = ("runtime monitoring of operation histories: recording wrapper on the real grow(), progress queries and "
              "directory listings after every step, checked online against a finished-set model")
 RULE = ("seeded histories (<= 12 operations after the first sow) over {re-sow same shape, grow i, Crop.grow(subset), "
-        "grow_missing, grow with a function told to fail on a chosen setting (raising ProbeFailure/KeyError/ZeroDivisionError/StopIteration/StopAsyncIteration), grow returning an unwritable result, delete result i, corrupt/truncate/"
+        "grow_missing, grow with a function told to fail on a chosen setting (raising ProbeFailure/KeyError/ZeroDivisionError/StopIteration/StopAsyncIteration), grow returning an unwritable result, grows as MPI rank 0, more batches requested than settings, reloads by the same constructor call, delete result i, corrupt/truncate/"
         "wrong-length result + check_bad, reload Crop, query} on crops of 1-8 batches (1-20 settings, grids and case "
         "lists, size/count batching, shuffle); every post-operation state is one judged observation; distinct by "
         "(shape, history prefix); non-trivial when the crop has >= 2 batches")
